@@ -1065,12 +1065,78 @@ def last_flag(facts, orc=None):
     return [t.rr]
 
 
+def rice_lanes(facts, orc=None):
+    """RANGE/rice-parameter-lanes: the 4-bit Rice parameter field must never carry 0b1111 (the escape code).  The cost table
+    has one lane per 4-bit value; the parameter search may only look at lanes <= max_p (and max_p <= 14 is C07's RANGE), i.e.
+    on every path the table that reaches the minimum reduction has passed the `lane <= max_p` selection."""
+    t = R("RANGE/rice-parameter-lanes", "the Rice parameter search only considers cost-table lanes <= max_p on every path")
+    from .lib_expr import ExprCtx, show as lshow
+    def _mentions_table(b):
+        for _b, _s, st in b.iter_stmts():
+            if st["k"] != "assign":
+                continue
+            rv = st["rv"]
+            pls = [rv.get("pl")] + [o.get("pl") for o in [rv.get(k) for k in ("op", "a", "b")] if isinstance(o, dict)]
+            if any(pl and ".p_to_bits" in pl.get("p", []) for pl in pls):
+                return True
+        return False
+    cands = [b for b in facts.body_list if b.id.startswith("rice::") and _mentions_table(b) and
+             any((tt.get("fn") or {}).get("name") in ("reduce_min", "min", "min_by_key", "position_min") for _bi, tt in b.calls())]
+    if not cands:
+        t.row(False, "rice", "anchor-missing", "no function of the rice module reduces the cost table to its minimum (undecided)")
+    for b in cands:
+        for bi, tt in b.calls():
+            if (tt.get("fn") or {}).get("name") not in ("reduce_min", "min", "min_by_key", "position_min"):
+                continue
+            e = ExprCtx(b, at=bi).expr(tt["args"][0])
+
+            def bare(x, under):
+                """Occurrences of the raw table not under a lane selection."""
+                if not isinstance(x, tuple) or not x:
+                    return []
+                if x[0] == "p" and ".p_to_bits" in x[2]:
+                    return [] if under else [x]
+                out = []
+                if x[0] == "call":
+                    nm = x[1]
+                    sel = bool(re.search(r"::select$|Mask::<.*>::select$", nm.split("::<")[-1] if False else nm)) and len(x[2]) >= 2
+                    if sel:
+                        mask = x[2][0]
+                        from .lib_expr import contains
+                        ok_mask = contains(mask, lambda y: isinstance(y, tuple) and y and y[0] == "call" and
+                                           re.search(r"simd_le$|simd_lt$", y[1])) and \
+                            contains(mask, lambda y: isinstance(y, tuple) and y and y[0] == "p" and y[1] == 2)
+                        for a in x[2][1:]:
+                            out += bare(a, under or ok_mask)
+                        return out
+                    for a in x[2]:
+                        out += bare(a, under)
+                    return out
+                for a in x[1:]:
+                    if isinstance(a, tuple):
+                        if a and isinstance(a[0], str):
+                            out += bare(a, under)
+                        else:
+                            for z in a:
+                                out += bare(z, under)
+                return out
+            raw = bare(e, False)
+            from .lib_expr import contains
+            uses_table = contains(e, lambda y: isinstance(y, tuple) and y and y[0] == "p" and ".p_to_bits" in y[2])
+            t.row(uses_table and not raw, b.id, "lanes-selected", "the table reduced to its minimum at %s is %s: on some path the "
+                  "cost table reaches the reduction without the `lane <= max_p` selection, so lane 15 competes and the 4-bit "
+                  "parameter field can carry 0b1111, which RFC 9639 reserves as the escape code" % (b.loc(bi, "term"), lshow(e)[:160]),
+                  {"function": b.id, "reduced": lshow(e)[:160]}, b.loc(bi, "term"))
+    t.rr.require_floor(1, "cost-table reductions")
+    return [t.rr]
+
+
 def run(facts, tier, ctx):
     orc = oracle()
     out = []
     for fn in (table_block_size, table_sample_rate, table_sample_size, table_channels, table_subframe_types,
                layout_streaminfo, layout_metadata_and_stream, layout_frame_header, order_frame, layout_lpc_residual,
-               crc_generators, header_construction, predictor_order, partition_floor, last_flag):
+               crc_generators, header_construction, predictor_order, partition_floor, last_flag, rice_lanes):
         try:
             out += fn(facts, orc)
         except E.Undecided as e:
